@@ -497,6 +497,15 @@ class SymDivZero:
         r = self.__eq__(o)
         return ~r if isinstance(r, SymBool) else (not r)
 
+    # ordering against finite values: +inf above, -inf below, nan unordered (always False)
+    def __gt__(self, o): return SymBool(self.num > 0)
+    def __ge__(self, o): return SymBool(self.num > 0)
+    def __lt__(self, o): return SymBool(self.num < 0)
+    def __le__(self, o): return SymBool(self.num < 0)
+
+    def is_nan(self):
+        return SymBool(self.num == 0)
+
     def __hash__(self):
         return 0
 
